@@ -34,6 +34,7 @@ type lFile struct {
 	reader *bufio.Reader
 	stdout io.ReadCloser
 	closed bool
+	std    bool // stdin/stdout/stderr: the host's descriptors
 }
 
 type lFileType int
@@ -190,6 +191,7 @@ func OpenIo(L *LState) int {
 
 	for _, finfo := range stdFiles {
 		file, _ := newFile(L, finfo.file, "", 0, os.FileMode(0), finfo.writable, finfo.readable)
+		file.Value.(*lFile).std = true
 		mod.RawSetString(finfo.name, file)
 	}
 	uv := L.CreateTable(2, 0)
@@ -288,6 +290,11 @@ func forgetOpenFile(L *LState, file *lFile) {
 }
 
 func fileCloseAux(L *LState, file *lFile) int {
+	if file.std { // they belong to the host program (and to its other states)
+		L.Push(LNil)
+		L.Push(LString("cannot close standard file"))
+		return 2
+	}
 	file.closed = true
 	forgetOpenFile(L, file)
 	var err error
